@@ -1412,7 +1412,7 @@ func c18badReset(s *c18sess, enc *llj.Encoder, r *rand.Rand, g *c18gen) {
 	s.rc.Count("bad_resets_refused", 1)
 	s.afterError(enc, wr, g)
 	if !s.bad {
-		s.rc.Class(fmt.Sprintf("%s|badreset|-|%s|%s|%s", p.ctName, p.qClass, p.hist, p.reused))
+		s.rc.Class(fmt.Sprintf("%s|badreset|-|%s|%s", p.ctName, p.qClass, p.hist))
 	}
 }
 
@@ -1526,7 +1526,7 @@ func c18image(rc *vk.Rec, enc *llj.Encoder, r *rand.Rand, phase string, idx int6
 		rc.Count("write_errors_reported", 1)
 		s.afterError(enc, wr, g)
 		if !s.bad {
-			rc.Class(fmt.Sprintf("%s|%s|-|%s|wfail@reset|%s", p.ctName, p.sizeClass, p.qClass, p.reused))
+			rc.Class(fmt.Sprintf("%s|%s|-|%s|wfail@reset", p.ctName, p.sizeClass, p.qClass))
 		}
 		return !s.bad
 	}
@@ -1684,7 +1684,8 @@ func c18image(rc *vk.Rec, enc *llj.Encoder, r *rand.Rand, phase string, idx int6
 	if (p.hist == "wfail" || p.hist == "wrongN" || p.hist == "invalid") && !errored {
 		hist += "-missed"
 	}
-	rc.Class(fmt.Sprintf("%s|%s|%s|%s|%s|%s", p.ctName, p.sizeClass, coef, p.qClass, hist, p.reused))
+	rc.Class(fmt.Sprintf("%s|%s|%s|%s|%s", p.ctName, p.sizeClass, coef, p.qClass, hist))
+	rc.Count("images_on_"+p.reused+"_encoder", 1)
 	if agg.dc11 {
 		rc.Count("images_with_dc_category_11", 1)
 	}
@@ -1707,7 +1708,7 @@ func c18image(rc *vk.Rec, enc *llj.Encoder, r *rand.Rand, phase string, idx int6
 
 func c18images(rc *vk.Rec) {
 	phase := "img"
-	n := rc.N(1500, 60000)
+	n := rc.N(1200, 60000)
 	for idx := int64(0); idx < int64(n); idx++ {
 		if rc.SkipCase(phase, idx) {
 			continue
@@ -1834,7 +1835,7 @@ func c18alloc(rc *vk.Rec) {
 			s.viol("allocates:"+p.ctName, fmt.Sprintf("Reset + %d AddN (+1 refused) allocate %.0f object(s) per run (minimum of 3 measurements of 10 runs, non-allocating writer)", p.N, best), nil)
 			continue
 		}
-		rc.Class(fmt.Sprintf("%s|alloc|%s|%s|full+extra|prewarmed", p.ctName, p.coefClass, p.qClass))
+		rc.Class(fmt.Sprintf("%s|alloc|%s|%s|full+extra", p.ctName, p.coefClass, p.qClass))
 	}
 }
 
